@@ -328,6 +328,7 @@ type crigSession struct {
 	policy     crigPolicy
 	registered bool // LocRIB registered as client
 	model      map[crigKey]crigAnn
+	postPolicy bool
 }
 
 type crigRig struct {
@@ -431,6 +432,9 @@ type crigSessionSpec struct {
 	RoleRemote uint8
 	Policy     crigPolicy
 	NonClient  bool // iBGP session that is not a route reflector client (cluster ID 0, as peer.go leaves it)
+	// PostPolicy: the session is the mirror of a BMP monitored peer reporting post-policy routes (L flag): its
+	// paths are built the way fsmAddressFamily.newRoutePath(bmpPostPolicy=true) builds them
+	PostPolicy bool
 }
 
 func (r *crigRig) addSession(idx int, spec crigSessionSpec) *crigSession {
@@ -465,6 +469,8 @@ func (r *crigRig) addSession(idx int, spec crigSessionSpec) *crigSession {
 		},
 		policy: spec.Policy,
 		model:  map[crigKey]crigAnn{},
+
+		postPolicy: spec.PostPolicy,
 	}
 	s.in = adjRIBIn.New(spec.Policy.chain(), r.vrf, s.sa)
 	r.sessions = append(r.sessions, s)
@@ -498,6 +504,7 @@ func (r *crigRig) buildPath(s *crigSession, a crigAttrs, id uint32) *route.Path 
 		},
 	}
 	b := p.BGPPath
+	b.BMPPostPolicy = s.postPolicy
 	b.BGPPathA.Origin = a.Origin
 	b.BGPPathA.LocalPref = a.LocalPref
 	b.BGPPathA.MED = a.MED
